@@ -307,6 +307,9 @@ def verify_entry_compatibility(e1, e2):
         COMPATIBLE_TAGS = ('MANIFEST', 'DATA', 'EBUILD', 'AUX')
         if t1 not in COMPATIBLE_TAGS or t2 not in COMPATIBLE_TAGS:
             return (False, [('__type__', t1, t2)])
+    elif t1 == 'IGNORE':
+        # IGNORE entries carry neither size nor checksums
+        return (True, [])
 
     # 2. compare sizes
     if e1.size != e2.size:
